@@ -44,6 +44,8 @@ StrokeMenu == {1 + 2 + 8 + 16 + 512 + 1024 + 4096 + 8192,
 StrokeOK(b) == MaxStroke = 0 \/ (MaxStroke = 99 /\ b \in StrokeMenu)
                \/ (MaxStroke \in 1..98 /\ Cardinality({r \in 0..(P - 1) : Bit(b, r)}) <= MaxStroke)
 StrokeSet == IF MaxStroke = 99 THEN StrokeMenu ELSE {x \in 1..(2 ^ P - 1) : StrokeOK(x)}
+\* construction modes (call 12): ids kept / removed, direct / from_tracks / with a FeatureDict, region features removed
+RebuildModes == IF HasSeg THEN {0, 1, 2, 3, 4, 5, 6, 7, 8, 11, 12, 15, 16} ELSE {0, 1, 2, 3, 4, 5, 6, 7, 16}
 \* the call alphabet offered in state s (refused calls included)
 Ids(s) == 1..(IF s.maxT + 2 <= MaxId THEN s.maxT + 2 ELSE MaxId)
 Calls(s) ==
@@ -75,6 +77,7 @@ Calls(s) ==
                  \cup {<<KPUpdAttrs, n, k, 2, 0>> : n \in Node, k \in {1, 2}}
                  \cup (IF HasSeg THEN {<<KPUpdSeg, n, b, a, 0>> : n \in Node, b \in 1..(2 ^ P - 1), a \in {0, 1}} ELSE {})
             ELSE {})
+    \cup (IF KRebuild \in Kinds THEN {<<KRebuild, m, 0, 0, 0>> : m \in RebuildModes} ELSE {})
     \cup (IF Hist THEN {<<KUndo, 0, 0, 0, 0>>, <<KRedo, 0, 0, 0, 0>>} ELSE {})
 
 \* a paint with an existing label must stay in that label's frame (C07 domain note)
